@@ -36,6 +36,8 @@ func runMultiBCCase(c *Case) string {
 	n, _ := strconv.Atoi(c.get("n", "2"))
 	iters, _ := strconv.Atoi(c.get("iters", "1000"))
 	seed, _ := strconv.Atoi(c.get("seed", "1"))
+	budgetMs, _ := strconv.Atoi(c.get("budget", "3000"))
+	budget := time.Duration(budgetMs) * time.Millisecond
 	var scripts [][]Tok
 	if s := c.get("srcs", ""); s != "" {
 		for _, part := range strings.Split(s, ";") {
@@ -94,7 +96,13 @@ func runMultiBCCase(c *Case) string {
 	for atomic.LoadInt32(&gidsReady) < int32(n) {
 		runtime.Gosched()
 	}
+	caseStart := time.Now()
 	for it := 0; it < iters; it++ {
+		// on a loaded machine the spinning sources may be descheduled for whole time slices: the
+		// number of iterations is then cut by a time budget (the harness's per-case deadline is 20 s)
+		if it&31 == 31 && time.Since(caseStart) > budget {
+			break
+		}
 		ps := make([]*Probe, n)
 		for i := range ps {
 			ps[i] = &Probe{script: scripts[i]}
@@ -154,7 +162,7 @@ func runMultiBCCase(c *Case) string {
 					seen[r.trace()+"!deadlock"]++
 					finished = true
 					it = iters
-				} else if el > 15*time.Second {
+				} else if el > 8*time.Second {
 					seen[r.trace()+"!stuck"]++
 					finished = true
 					it = iters
@@ -209,9 +217,9 @@ var mbcScenarios = []struct {
 
 func genMultiBC(tier string, seed int64, only string) []*Case {
 	// a case must stay well under the harness's per-case deadline: thorough repeats the scenarios
-	iters, reps := 5000, 1
+	iters, reps, budget := 5000, 1, "3000"
 	if tier == "thorough" {
-		iters, reps = 25000, 24
+		iters, reps, budget = 25000, 24, "8000"
 	}
 	var cases []*Case
 	id := 0
@@ -221,7 +229,7 @@ func genMultiBC(tier string, seed int64, only string) []*Case {
 				continue
 			}
 			id++
-			cases = append(cases, newCase(id, "kind", "multibc", "op", sc.op, "n", "2", "iters", strconv.Itoa(iters),
+			cases = append(cases, newCase(id, "kind", "multibc", "op", sc.op, "n", "2", "iters", strconv.Itoa(iters), "budget", budget,
 				"seed", strconv.FormatInt(seed*100000+int64(rep*100+i), 10), "srcs", sc.srcs))
 		}
 	}
